@@ -8,7 +8,7 @@ def histories(nobj, length):
     ops = []
     for o in range(nobj):
         ops += [("enter_cb", o), ("enter_add", o), ("register", o), ("unregister", o)]
-    ops += [("enter_add2", 0), ("exit", None), ("get", None), ("get_explicit", 0), ("get_explicit", 1), ("get_fail", None)]
+    ops += [("enter_add2", 0), ("exit", None), ("get", None), ("get_explicit", 0), ("get_explicit", 1), ("get_fail", None), ("get_broken", "missing"), ("get_broken", "cycle")]
     for n in range(1, length + 1):
         yield from itertools.product(ops, repeat=n)
 
@@ -110,6 +110,29 @@ def run_history(h):
                     Callback.active.discard(probe._callback)
                 if set(Callback.active) != act:
                     return "a failing scheduler call changed the active set"
+            elif op == "get_broken":
+                # a scheduler call that fails while the graph is analysed (missing dependency / dependency cycle), after
+                # the start callbacks ran: every callback whose start ran gets its finish call (failed=True) all the same
+                from dask._task_spec import TaskRef
+                act = set(Callback.active)
+                log = []
+                probe = Callback(start=lambda dsk: log.append("start"), finish=lambda dsk, state, failed: log.append(("finish", failed)))
+                probe.register()
+                bad = {"x": Task("x", int, TaskRef("nope"))} if o == "missing" else {"x": Task("x", int, TaskRef("y")), "y": Task("y", int, TaskRef("x"))}
+                try:
+                    try:
+                        L.get_sync(bad, "x")
+                        return f"a graph with a {o} dependency did not raise"
+                    except Exception:
+                        pass
+                    if log.count("start") != sum(1 for e in log if e != "start"):
+                        return f"scheduler call on a graph with a {o}: callbacks saw {log} (every start needs its finish)"
+                    if "start" in log and ("finish", True) not in log:
+                        return f"scheduler call on a graph with a {o}: callbacks saw {log}, expected finish(failed=True)"
+                finally:
+                    Callback.active.discard(probe._callback)
+                if set(Callback.active) != act:
+                    return "a scheduler call that failed during graph analysis changed the active set"
             elif op == "get_explicit":
                 # callbacks passed with callbacks=: only those are used, and the globally active set is left alone
                 for s_ in seen:
@@ -150,7 +173,7 @@ def sweep(tier, seed=0, length=None):
     return {
         "function": "dask/callbacks.py (real Callback/add_callbacks objects, nested histories)",
         "bounded": True,
-        "bound": {"callback_objects": 2, "history_length": length, "ops": "enter Callback / enter add_callbacks(1 or 2 cbs) / register / unregister / exit / get_sync / get_sync(callbacks=[cb]) / failing get_sync"},
+        "bound": {"callback_objects": 2, "history_length": length, "ops": "enter Callback / enter add_callbacks(1 or 2 cbs) / register / unregister / exit / get_sync / get_sync(callbacks=[cb]) / failing get_sync / get_sync on a graph with a missing dependency or a cycle"},
         "cases": cases, "distinct_nontrivial": cases, "failures_found": len(fails), "wall_s": round(time.time() - t0, 2),
         "samples": [{"native_case": rtc._jsonable(sample)}], "failures": fails,
     }
